@@ -1980,3 +1980,78 @@ def walker_random(cx):
               "view), PEPS (1-2 x 2) and TN_rand_reg(4,3) networks (subclass views, site tags); no repeated labels")
 def walker_structured(cx):
     _histories(cx, 160, 400, 25, 60, ("mps", "peps", "reg", "mps"), 0)
+
+
+# ----------------------------------------------------------------------------------------------
+# owner registry when a dropped view's address is reused by a new view
+# ----------------------------------------------------------------------------------------------
+
+
+@driver("C02", "owner-registry-after-address-reuse", chunks=1, timeout=120,
+        bound="a network of 2..5 tensors; a virtual view of it is dropped without touching its tensors and a new virtual view of "
+              "the same tensors is created at once (CPython hands out the freed address again: up to 60 attempts, alternating "
+              "del / del + gc.collect(), until hash(new view) == hash(dropped view)); then a tag and a label are renamed through "
+              "one shared tensor: the maps of the original AND of the new view equal a recount, every holder is a registered "
+              "owner, selection by the new tag finds the tensor in both")
+def owner_reuse(cx):
+    import gc
+
+    import quimb.tensor as qtn
+
+    rng = cx.rng
+    ncase = 12 if cx.quick else 120
+    for i in range(ncase):
+        nt = int(rng.integers(2, 6))
+        how = ("TensorNetwork(ts, virtual=True)", "select(virtual=True)", "copy(virtual=True)")[i % 3]
+        seed = int(rng.integers(1 << 30))
+
+        def t(nt=nt, how=how, seed=seed):
+            r = np.random.default_rng(seed)
+            ts = [qtn.Tensor(r.normal(size=(2, 2)), inds=(f"b{k}", f"b{k + 1}"), tags=(f"T{k}", "ALL")) for k in range(nt)]
+            tn = qtn.TensorNetwork(ts, virtual=True)
+
+            def view():
+                if how.startswith("TensorNetwork"):
+                    return qtn.TensorNetwork(list(tn.tensor_map.values()), virtual=True)
+                if how.startswith("select"):
+                    return tn.select("ALL", virtual=True)
+                return tn.copy(virtual=True)
+
+            reused = False
+            v = None
+            for attempt in range(60):
+                old = view()
+                h = hash(old)
+                del old
+                if attempt % 2:
+                    gc.collect()
+                v = view()
+                if hash(v) == h:
+                    reused = True
+                    break
+                del v
+                v = None
+            if v is None:
+                v = view()
+            # rename through one shared tensor
+            tt = tn["T1"] if nt > 1 else tn["T0"]
+            tt.retag_({"T1" if nt > 1 else "T0": "RENAMED"})
+            tt.reindex_({tt.inds[0]: "newlabel"})
+            for nm, net in (("original", tn), ("new view", v)):
+                e = check_maps(net) or check_inner_outer(net)
+                if e:
+                    return f"{nm} after a rename through a shared tensor (address reused: {reused}): {e}"
+                got = net.select_tensors("RENAMED")
+                if len(got) != 1 or got[0] is not tt:
+                    return f"{nm}: select_tensors('RENAMED') finds {len(got)} tensors (address reused: {reused})"
+                if "newlabel" not in net.ind_map:
+                    return f"{nm}: the renamed label is missing from ind_map (address reused: {reused})"
+            e = check_owners([tn, v], ())
+            if e:
+                return f"owners (address reused: {reused}): {e}"
+            if not reused:
+                return None
+            return None
+
+        cx.check("a new virtual view created at the address of a dropped one is a registered owner: renames through a shared "
+                 "tensor reach its maps", dict(i=i, nt=nt, how=how), t)
